@@ -91,7 +91,14 @@ class Routine(Schedule, CommentableMixin):
         is_eq = super().__eq__(other)
         is_eq = is_eq and self.name == other.name
         is_eq = is_eq and self.is_program == other.is_program
-        is_eq = is_eq and self.return_symbol == other.return_symbol
+        # Symbols are compared by name: the return symbol of a copy is the
+        # equivalent symbol in the copy's own symbol table.
+        if is_eq and (self.return_symbol is None or
+                      other.return_symbol is None):
+            is_eq = self.return_symbol is other.return_symbol
+        elif is_eq:
+            is_eq = (self.return_symbol.name.lower() ==
+                     other.return_symbol.name.lower())
 
         return is_eq
 
